@@ -11,9 +11,20 @@
     2. scanner level: the printed form of a string, followed by anything, is scanned back as exactly
        one String / RawString token with that text;
     3. reader level: a printed string token is read back as the original string;
-    4. structure level: collections are rebuilt from their printed tokens (token-level round trip),
-       relative to the per-atom scanning lemmas.
-  Property theorems only (helper lemmas live in Proofs/RoundTrip.lean).
+    4. byte level: decoding the UTF-8 encoding of the printed characters gives the characters back
+       (`decodeAll_utf8`);
+    5. atom level: printed integers, symbols, keywords and strings, followed by a delimiter, are
+       scanned as one token each (`scan_printed_int_token`, `scan_printed_symbol_token`, …) and
+       `parseInt` inverts `intStr` (`parseInt_intStr`);
+    6. value level: the printed text of a readable data value tokenizes to the expected tokens
+       (`tokens_of_printed_value`) and these are read back as a structurally equal value
+       (`read_printed_tokens`);
+    7. end to end: `print_then_read` — for every readable data value (`readableData`) with pairwise
+       different hash-map / set keys (`Data`), `readStr` of the UTF-8 bytes of `print v` returns a
+       value equal to `v` up to cursors (`structEqB`).  The key hypothesis is needed:
+       `duplicate_keys_do_not_round_trip`.
+  Property theorems only (helper lemmas live in Proofs/RoundTrip.lean, Proofs/ScanString.lean and
+  Proofs/PrintRead*.lean).
 -/
 import LispModel.Read
 import LispModel.Print
@@ -21,6 +32,7 @@ import LispModel.Spec.Readable
 import LispModel.Util
 import LispModel.Proofs.RoundTrip
 import LispModel.Proofs.ScanString
+import LispModel.Proofs.PrintRead
 namespace LispModel.Props.C06
 open LispModel LispModel.Read LispModel.Print
 
@@ -119,5 +131,159 @@ theorem hostile_strings_round_trip :
     roundTripsStr "a\\\"b\nc" (bytes% "\"a\\\\\\\"b\\nc\"") = true ∧
     roundTripsStr "{\"k\": \"¬\"}" (bytes% "¬{\"k\": \"¬¬\"}¬") = true ∧
     roundTripsStr "\\n" (bytes% "\"\\\\n\"") = true := by decide
+
+/-! ### the first sentence of C06, end to end -/
+
+/-- the UTF-8 bytes of a character list -/
+def utf8 (cs : List Char) : List UInt8 := cs.flatMap String.utf8EncodeChar
+
+/-- `utf8` is `String.toUTF8` -/
+theorem utf8_is_toUTF8 (s : String) : s.toUTF8.toList = utf8 s.toList :=
+  Proofs.PrintRead.toUTF8_eq s
+
+/-- 4. decoding the UTF-8 encoding of a character list gives the characters back: one rune per
+    character, with its code point and width, none flagged `bad` -/
+theorem decodeAll_utf8 (cs : List Char) :
+    Scan.decodeAll (utf8 cs) = cs.map (fun c => (⟨c.toNat, c.utf8Size, false⟩ : Scan.Rune)) :=
+  Proofs.PrintRead.decodeAll_utf8 cs
+
+/-- 5a. `strconv.ParseInt` (as modelled) inverts the printer's `%v` on the int64 range -/
+theorem parseInt_intStr (i : Int) (h : -9223372036854775808 ≤ i ∧ i ≤ 9223372036854775807) :
+    parseInt (intStr i) = some i :=
+  Proofs.PrintRead.parseInt_intStr i h
+
+/-- the decoded form of a character list (each rune with its UTF-8 width) -/
+abbrev runesU (cs : List Char) : List Scan.Rune := Proofs.PrintRead.runesOf cs
+
+/-- a delimiter the printer emits after an element: a well-encoded space, `)`, `]` or `}` -/
+abbrev IsDelim (d : Scan.Rune) : Prop := Proofs.PrintRead.IsDelim d
+
+/-- 5b. a printed integer followed by a delimiter (or by the end of the input): with its first
+    character read, one call of `scan` returns the Int token spelled `intStr i` and leaves the
+    scanner on the delimiter, no error recorded — whatever the fuel -/
+theorem scan_printed_int_token (i : Int) (d : Scan.Rune) (S : List Scan.Rune) (hd : IsDelim d)
+    (p : Scan.PState) (hp : p.errs = 0) :
+    ∃ q, (∀ F : Nat, Scan.scan (F + 1) (Scan.next (runesU (intStr i) ++ d :: S) p).2.1
+        (Scan.next (runesU (intStr i) ++ d :: S) p).1 (Scan.next (runesU (intStr i) ++ d :: S) p).2.2 =
+          (some (.int, (intStr i).map Char.toNat), Scan.next (d :: S) q)) ∧ q.errs = 0 :=
+  Proofs.PrintRead.scan_int i (Or.inr ⟨d, S, rfl, hd⟩) p hp
+
+/-- 5c. the continuation lemma behind the definition of the readable symbols: a spelling that the
+    scanner, on its own, turns into exactly one token with that text is — followed by a delimiter and
+    anything — scanned as the same token, the scanner stopping on the delimiter -/
+theorem scan_printed_symbol_token (s : String) (h : readableSym s = true) (d : Scan.Rune)
+    (S : List Scan.Rune) (hd : IsDelim d) (p : Scan.PState) (hp : p.errs = 0) :
+    ∃ t q, tokensOfString s = .ok [t] ∧ tokStr t = s ∧ q.errs = 0 ∧
+      ∀ F : Nat, Scan.scan (F + 1) (Scan.next (runesU s.toList ++ d :: S) p).2.1
+        (Scan.next (runesU s.toList ++ d :: S) p).1 (Scan.next (runesU s.toList ++ d :: S) p).2.2 =
+          (some (t.kind, t.text), ((d.ch : Int), S, q)) := by
+  obtain ⟨t, ht, hs, hk⟩ := Proofs.PrintRead.readableSym_spec h
+  have ht' := ht
+  rw [Proofs.PrintRead.tokensOfString_eq] at ht'
+  have hlen : t.text.length = s.toList.length := by
+    rw [← hs, Proofs.PrintRead.tokStr_toList]; simp
+  have hak : Proofs.PrintRead.AtomKind t.kind := by
+    rcases hk with ⟨hk, _⟩ | ⟨c, hk⟩
+    · exact Or.inl hk
+    · exact Or.inr (Or.inr ⟨c, hk⟩)
+  obtain ⟨_, _, hsc⟩ := Proofs.PrintRead.readable_scan s.toList t ht' hak hlen
+  obtain ⟨q, hq, he⟩ := hsc d S hd p hp
+  exact ⟨t, q, ht, hs, he, hq⟩
+
+/-- the expected tokens (kind and text) of the printed text of a value -/
+abbrev toksOf (v : Val) : List (Scan.Kind × List Nat) := Proofs.PrintRead.toksOf v
+
+/-- 6a. scanner level, whole values: tokenizing the UTF-8 bytes of the printed text of a readable
+    data value succeeds and gives exactly the expected tokens -/
+theorem tokens_of_printed_value (v : Val) (h : readableData v = true) :
+    ∃ ts, Scan.tokenize (utf8 (print v)) = .ok ts ∧ ts.map (fun t => (t.kind, t.text)) = toksOf v := by
+  obtain ⟨ts, hts, hm⟩ := Proofs.PrintRead.tokenize_print v h
+  refine ⟨ts, ?_, hm⟩
+  show Scan.tokenizeRunes (Scan.decodeAll (Proofs.PrintRead.utf8 (print v))) = _
+  rw [Proofs.PrintRead.decodeAll_utf8]
+  exact hts
+
+/-- 6b. reader level, whole values: any tokens with the expected kinds and texts (whatever their
+    positions), followed by anything, are read by `readForm` as a value structurally equal to `v`,
+    the rest left unread — without a placeholder table, with enough fuel -/
+theorem read_printed_tokens (cfg : Cfg) (hphs : cfg.phs = none) (v : Val) (h : readableData v = true)
+    (hd : Data v) (ts : List Scan.Token) (hts : ts.map (fun t => (t.kind, t.text)) = toksOf v) :
+    ∃ v' f, (∀ rest, readForm f cfg (ts ++ rest) = .ok (v', rest)) ∧ structEqB v v' = true := by
+  obtain ⟨v', ⟨f, hf⟩, _, he⟩ := Proofs.PrintRead.read_val cfg hphs v h hd ts hts
+  exact ⟨v', f, hf, he⟩
+
+/-- 7. **printing then reading returns the same value**: for every readable data value with pairwise
+    different hash-map / set keys, `Read_str` of the UTF-8 bytes of `PRINT v` succeeds and returns a
+    value equal to `v` up to cursors and entry order (`structEqB`, proved equivalent to `SEq` in C14) -/
+theorem print_then_read (v : Val) (h : readableData v = true) (hd : Data v) :
+    ∃ v', readStr {} (utf8 (print v)) = .ok v' ∧ structEqB v v' = true :=
+  Proofs.PrintRead.print_then_read v h hd
+
+/-- the same at the rune level, for any reader configuration without a placeholder table -/
+theorem print_then_read_runes (cfg : Cfg) (hphs : cfg.phs = none) (v : Val) (h : readableData v = true)
+    (hd : Data v) :
+    ∃ ts v', Scan.tokenizeRunes (runesU (print v)) = .ok ts ∧ ts ≠ [] ∧
+      readForm (2 * ts.length + 2) cfg ts = .ok (v', []) ∧ structEqB v v' = true :=
+  Proofs.PrintRead.print_then_read_runes cfg hphs v h hd
+
+/-- the round trip as a Boolean, for kernel-evaluated examples -/
+def roundTrips (v : Val) : Bool :=
+  match readStr {} (utf8 (print v)) with
+  | .ok v' => structEqB v v'
+  | .error _ => false
+
+/-- `Data v` is needed (`readableData` does not ask for different keys): a hash-map value with the
+    key "a" twice prints as `{"a" 1 "a" 2}`, which is read back as the one-entry map `{"a" 2}` -/
+theorem duplicate_keys_do_not_round_trip :
+    readableData (.map [("a", .int 1), ("a", .int 2)]) = true ∧
+    roundTrips (.map [("a", .int 1), ("a", .int 2)]) = false := by decide
+
+/-- a nested value with hostile strings, a keyword, symbols (one of them a Char token, one with a
+    `$`), negative and extreme integers, an empty list, a map and a set -/
+def sample : Val :=
+  .list [.sym "foo-bar?" none, .sym "%" none, .sym "$x" none, .int (-9223372036854775808), .int 0,
+    .str "a\\\"b\nc ʞ ¬", .str "{\"k\": \"¬\"}", .str "", Val.kw "key", .nil, .bool false,
+    .list [] none,
+    .vec [.map [("k", .vec [.int 7] none), (String.ofList [kwMarker, 'a'], .nil)], .set ["x", "y z"]] none] none
+
+set_option maxRecDepth 100000 in
+theorem sample_readable : readableData sample = true := by
+  rw [Proofs.PrintRead.readableData_eq]; decide
+
+theorem sample_data : Data sample := by
+  refine Data.list (fun x hx => ?_)
+  simp only [sample, List.mem_cons, List.not_mem_nil, or_false] at hx
+  rcases hx with rfl | rfl | rfl | rfl | rfl | rfl | rfl | rfl | rfl | rfl | rfl | rfl | rfl
+  · exact Data.sym _ _
+  · exact Data.sym _ _
+  · exact Data.sym _ _
+  · exact Data.int _
+  · exact Data.int _
+  · exact Data.str _
+  · exact Data.str _
+  · exact Data.str _
+  · exact Data.str _
+  · exact Data.nil
+  · exact Data.bool _
+  · exact Data.list (fun x hx => by cases hx)
+  · refine Data.vec (fun x hx => ?_)
+    simp only [List.mem_cons, List.not_mem_nil, or_false] at hx
+    rcases hx with rfl | rfl
+    · refine Data.map (by decide) (fun kv hkv => ?_)
+      simp only [List.mem_cons, List.not_mem_nil, or_false] at hkv
+      rcases hkv with rfl | rfl
+      · exact Data.vec (fun x hx => by
+          simp only [List.mem_cons, List.not_mem_nil, or_false] at hx
+          subst hx; exact Data.int _)
+      · exact Data.nil
+    · exact Data.set (by decide)
+
+/-- the theorem applied to the sample (non-vacuity of its hypotheses) … -/
+example : ∃ v', readStr {} (utf8 (print sample)) = .ok v' ∧ structEqB sample v' = true :=
+  print_then_read sample sample_readable sample_data
+
+/-- … and the same round trip by kernel evaluation of the model -/
+set_option maxRecDepth 100000 in
+theorem sample_round_trips : roundTrips sample = true := by decide
 
 end LispModel.Props.C06
